@@ -1273,6 +1273,24 @@ def check_line(ctx, out: Outcome, block, line, model_line, via=None, variant_rng
         out.count("reporting_variant")
         if impl2 != impl:
             out.violations.append(Finding("oracle:reporting_changes_verdict", dict(case, variant=str(v)), observed=impl2, expected=impl, detail="verdict depends on quiet/return_message/return_handler"))
+    # a model DERIVED from the expected one by pydantic's copy(update=...) with every field set to the computed model's value IS the
+    # computed model, value for value: comparing the two must pass whenever the computed model passes against itself — whatever the
+    # expected model had already been dumped / compared for before the copy was taken
+    if via is not None and via[0] in ("model", "proto") and not impl.startswith("raise"):
+        E, C = via[1], via[2]
+        try:
+            kw0 = {k: v for k, v in opts.items() if k in ("atol", "rtol") and v is not None}
+            self_ok = canon(impl_call(lambda a, b, **k: a.compare(b, **k), C, C, quiet=True, **kw0)[0])
+            upd = {n: getattr(C, n) for n in C.__fields__ if n in getattr(C, "__fields_set__", ())}
+            D = E.copy(update=upd)
+            d_ok = canon(impl_call(lambda a, b, **k: a.compare(b, **k), D, C, quiet=True, **kw0)[0])
+            out.count("derived_copy_variant")
+            same_set = set(getattr(E, "__fields_set__", ())) <= set(upd)
+            if self_ok == "T" and same_set and d_ok != "T":
+                out.violations.append(Finding("oracle:derived_copy_verdict", dict(case, derived_copy=True), observed=d_ok, expected="T",
+                                              detail="expected.copy(update=<every field of computed>) compared with computed does not pass although computed passes against itself"))
+        except Exception:  # noqa
+            pass
     # the verdict is about VALUES: equal sub-trees being the very same Python objects on both sides changes nothing
     if variant_rng is not None and via is None and op in ("V", "E", "R", "W") and variant_rng.random() < 0.3:
         impl3, _ = run_impl(op, opts, e, c, via=None, share=True)
